@@ -491,6 +491,9 @@ def toy_case(inp, tracedir):
         if not np.all(np.isfinite(imf)) or not np.all(imf == np.round(imf)):
             res['discard'] = 'nonint'
             return res
+        if imf.shape[1] >= 58:
+            res['discard'] = 'model-fuel'
+            return res
         noise = []
         if lay:
             for i in range(nens):
@@ -709,6 +712,9 @@ def replay(rec):
         res = toy_case(i, tdir)
         for f in res['fails']:
             print(f[1])
+        if res['discard']:
+            print('case is discarded now (%s)' % res['discard'])
+            return False
         if rec.get('kind') == 'correspondence-break':
             print('implementation:', str(res['got'])[:400])
             return rec.get('expected') is not None and res['got'] != rec['expected']
